@@ -114,6 +114,7 @@ type FuncVC struct {
 	inFinish    bool
 	strictState *State
 	heapType    map[string]types.Type
+	callOrd     map[ssa.Instruction]int
 	assertBlk   []int // block index during which each assert was emitted (-1: global)
 	anc         map[int]map[int]bool
 }
